@@ -5,6 +5,7 @@
      <msg>  := bo=<l|B> typ=<0..4> flags=<n> preset=<n|-> fields=<hex|-|none> prefix=<hex|-> pay=<len> seed=<n> nfds=<n> calls=<c;c;...>
      <call> := o<k>  write_once, kernel takes up to k      oE  write_once, EAGAIN
                s     into_progress                        r   resume
+               X     drop the context (X:ok / X:panic)     Q   force_finish
                W<d,d,...>  write() with the iteration decisions d := a<k> | e | t   (accept / EAGAIN / timed out)
    stdout: pre=<serials> | <result> ...
      <result> := serial=<reported|-> senderr=<0|1> total=<n> hdr=<hex> bodycrc=<crc32> trace=<r@bytes_sent,...>
@@ -47,6 +48,7 @@ let kv_of s =
 let status = function Ok _ -> "ok" | Err -> "E" | Panic -> "PANIC" | UB -> "UB" | OutOfFuel -> "FUEL"
 
 type st = Active of send_ctx | Suspended of send_conn * message * send_state | Done of n | Broken
+        | Abandoned of send_ctx     (* the caller dropped the context (X) or called force_finish (Q) *)
 
 let dh preset =
   { dh_interface = None; dh_member = None; dh_object = None; dh_destination = None; dh_serial = preset;
@@ -89,6 +91,7 @@ let run_msg (conn : send_conn) (w0 : world) (kv : (string * string) list) : send
           (if fds_new = [] then "-" else String.concat "." (List.map (fun f -> string_of_int (int_of_n f)) fds_new))
           (match wire_serial hb with Some s -> string_of_int (int_of_n s) | None -> "-")
           (List.length wire_new) (if closed then 1 else 0))
+    | Err -> (c', w', "serial=- senderr=1")
     | o -> (c', w', "serial=- senderr=" ^ status o)
   end else
   match send_message (fun _ -> fields) conn m with
@@ -112,6 +115,7 @@ let run_msg (conn : send_conn) (w0 : world) (kv : (string * string) list) : send
           | Active x -> int_of_n x.cx_state.bytes_sent
           | Suspended (_, _, p) -> int_of_n p.bytes_sent
           | Done _ -> total
+          | Abandoned x -> int_of_n x.cx_state.bytes_sent
           | Broken -> -1 in
         let res =
           match !state, c.[0] with
@@ -140,6 +144,8 @@ let run_msg (conn : send_conn) (w0 : world) (kv : (string * string) list) : send
                | Ok s -> state := Done s; "W:ok"
                | Err -> state := Active x'; "W:E"
                | o -> state := Broken; "W:" ^ status o)
+          | Active x, 'X' -> state := Abandoned x; (match drop_ctx x with Ok _ -> "X:ok" | Panic -> "X:panic" | o -> "X:" ^ status o)
+          | Active x, 'Q' -> state := Abandoned x; "Q"
           | _, _ -> "-" in
         trace := (res ^ "@" ^ string_of_int (bs_of ())) :: !trace) calls;
       let completed, serial = match !state with Done s -> (1, string_of_int (int_of_n s)) | _ -> (0, "-") in
@@ -159,7 +165,7 @@ let run_msg (conn : send_conn) (w0 : world) (kv : (string * string) list) : send
         && int_of_n (r_state r).bytes_sent = (match !state with
              | Active x -> int_of_n x.cx_state.bytes_sent
              | Suspended (_, _, p) -> int_of_n p.bytes_sent
-             | Done _ -> total | Broken -> -1) in
+             | Done _ -> total | Abandoned x -> int_of_n x.cx_state.bytes_sent | Broken -> -1) in
       let out = Printf.sprintf
         "serial=%s senderr=0 total=%d hdr=%s bodycrc=%d trace=%s wire_len=%d wire_crc=%d fds=%s completed=%d wire_serial=%s sum=%d closed=%d"
         serial total (hex_of_list hb) (crc32 body)
@@ -171,7 +177,7 @@ let run_msg (conn : send_conn) (w0 : world) (kv : (string * string) list) : send
         (int_of_n (accepted_sum true sched))
         (if closed then 1 else 0) in
       let conn_after = match !state with
-        | Active x -> x.cx_conn | Suspended (cn, _, _) -> cn | _ -> conn' in
+        | Active x | Abandoned x -> x.cx_conn | Suspended (cn, _, _) -> cn | _ -> conn' in
       (conn_after, !w, out)
   | o -> (conn, w0, "serial=- senderr=" ^ status o)
 
